@@ -1046,7 +1046,7 @@ def c16(tier):
         inputs += gen.g_seams(F, rng)[:: 12 if q else 3]
         inputs += [r for r in gen.g_extremes(F, rng, big=3000) if r["tag"] != "G5:zero"][:: 4 if q else 1]
         # huge values cut after 20..40 digits and written in scientific form: big-integer path with a POSITIVE residual exponent
-        for ef in rng.sample(range(F.bias + 70, F.emaxfield), 16 if q else 60):
+        for ef in rng.sample(range(F.bias + 70, F.emaxfield), min(16 if q else 60, F.emaxfield - F.bias - 70)):
             M, k = F.midpoint((ef << F.mbits) | rng.getrandbits(F.mbits))
             ds, e10 = gen.exact_decimal(M, k)
             t = rng.choice([20, 21, 25, 30, 40])
